@@ -563,4 +563,3 @@ func childFlagCase(c *h.Case) {
 	run.Count("child_frpc_commands", 1)
 	run.Distinct("childflags|" + typ + "|" + strings.Join(sig, ","))
 }
-
